@@ -53,8 +53,11 @@ func selftestDeterminism(nseeds, nbatches int) int {
 				if s%2 == 0 {
 					tier = "thorough"
 				}
-				sp.genBatch(classified, uint64(s), tier, bn, in)
-				sp.genBatch(classified, uint64(s), tier, bn, in2)
+				for _, f := range []string{in, in2} {
+					if msg := sp.genBatch(classified, uint64(s), tier, bn, f); msg != "" {
+						fail2("%s", msg)
+					}
+				}
 				a, _ := os.ReadFile(in)
 				bb, _ := os.ReadFile(in2)
 				if string(a) != string(bb) {
